@@ -18,11 +18,25 @@
     is delivered CounterZero at most twice — once per counter — counted on the ghost log
     (potential argument: deliveries so far + guard flags still unset never grows after the start
     of the call; `Proofs/CzCount.lean`, on the potential form of the counting lemma).
+  * `C08_log_adjacent`: ORDER on the log, whole call (any machines, oracle, state with u64
+    counters, batch): the ghost log segment of a call, read chronologically, is accepted by the
+    monitor's two rules `C08.checkLog` (started with empty flags) and `C08.strayCZ`, and does not
+    start with a CounterZero delivery. In plain terms (`C08_log_exact`, `C08_log_cz_preceded`):
+    every counter entry logs u64 values and is IMMEDIATELY followed by the CounterZero delivery to
+    the same machine exactly when counter A or counter B of that machine goes from non-zero to
+    zero there for the first time in the call; every CounterZero delivery is IMMEDIATELY preceded
+    by a counter entry of the same machine. Since the entered state's action is scheduled only
+    after `update_counter` returns (`C08_delivery`), the delivery comes before that scheduling.
+    `C08_counters_u64`: the u64 bound on the counters is an invariant of a call
+    (`C08_counters_u64_run`: of every history from `Fw.init`, where all counters are 0).
+    (`Proofs/CounterLog.lean`; needs no validity or no-fault hypothesis: the fuel potential
+    2 x unset flags + 2 <= 8 guarantees that the delivery is really made.)
   The implementation is tied to this by the correspondence on counter values (tag RC), the
   internal log (tag L, with the hook's counter entries) and the monitor `C08.monitor`.
 -/
 import MbVerif.Proofs.SafeCall
 import MbVerif.Proofs.CzCount
+import MbVerif.Proofs.CounterLog
 
 namespace Mb.C08
 open Mb
@@ -133,7 +147,141 @@ theorem C08_at_most_twice_per_call (mi : Nat) (es : List TEvent) (t : Int) (s : 
     czOf mi (triggerEvents ρ es t s) ≤ czOf mi s + 2 :=
   cz_triggerEvents ρ mi es t s
 
+/-- the u64 bound on all counters is preserved by a call -/
+theorem C08_counters_u64 (es : List TEvent) (t : Int) (s : Fw σ)
+    (hb : ∀ r ∈ s.rt, r.counterA ≤ Fp.u64Max ∧ r.counterB ≤ Fp.u64Max) :
+    ∀ r ∈ (triggerEvents ρ es t s).rt, r.counterA ≤ Fp.u64Max ∧ r.counterB ≤ Fp.u64Max := by
+  obtain ⟨_, _, _, _, hi⟩ := CL.call_good ρ es t s hb
+  intro r hr
+  obtain ⟨i, hi', hget⟩ := List.getElem_of_mem hr
+  exact hi.bnd i r (by rw [List.getElem?_eq_getElem hi', hget])
+
+/-- a freshly constructed framework has all counters 0 -/
+theorem C08_counters_init (ms : List Machine) (fp fb : F64) (t0 : Int) (rng : σ) :
+    ∀ r ∈ (Fw.init ρ ms fp fb t0 rng).rt, r.counterA = 0 ∧ r.counterB = 0 := by
+  have step : ∀ (s : Fw σ) (mi : Nat), (∀ r ∈ s.rt, r.counterA = 0 ∧ r.counterB = 0) →
+      ∀ r ∈ (initLimit ρ s mi).rt, r.counterA = 0 ∧ r.counterB = 0 := by
+    intro s mi hs
+    unfold initLimit
+    split
+    · simpa using hs
+    · split
+      · simpa using hs
+      · split
+        · exact hs
+        · next a _ =>
+          have hrt := (sampleLimit_spec ρ mi a s).1.rt
+          intro r hr
+          obtain ⟨i, hi, hget⟩ := List.getElem_of_mem hr
+          have hr' : ((sampleLimit ρ a s).2.modRt mi
+              (fun r => { r with stateLimit := (sampleLimit ρ a s).1 })).rt[i]? = some r := by
+            rw [List.getElem?_eq_getElem hi, hget]
+          by_cases him : i = mi
+          · subst him
+            rw [Fw.modRt_rt_self, hrt] at hr'
+            cases h0 : s.rt[i]? with
+            | none => rw [h0] at hr'; cases hr'
+            | some r0 =>
+              rw [h0] at hr'
+              simp only [Option.map_some, Option.some.injEq] at hr'
+              rw [← hr']
+              exact hs r0 (List.mem_of_getElem? h0)
+          · rw [Fw.modRt_rt_other _ mi i _ him, hrt] at hr'
+            exact hs r (List.mem_of_getElem? hr')
+  unfold Fw.init
+  generalize List.range ms.length = idx
+  have h0 : ∀ r ∈ (Fw.init0 ms fp fb t0 rng).rt, r.counterA = 0 ∧ r.counterB = 0 := by
+    intro r hr
+    simp only [Fw.init0, List.mem_map] at hr
+    obtain ⟨_, _, rfl⟩ := hr
+    exact ⟨rfl, rfl⟩
+  generalize Fw.init0 ms fp fb t0 rng = s0 at h0
+  induction idx generalizing s0 with
+  | nil => exact h0
+  | cons i idx ih => exact ih _ (step s0 i h0)
+
+/-- hence the u64 bound holds in every state reachable from `Framework::new` by any history: the
+    hypothesis of `C08_log_adjacent` is met by every call of every run -/
+theorem C08_counters_u64_run (ms : List Machine) (fp fb : F64) (t0 : Int) (rng : σ) (h : List Call) :
+    ∀ r ∈ (runCalls ρ (Fw.init ρ ms fp fb t0 rng) h).rt, r.counterA ≤ Fp.u64Max ∧ r.counterB ≤ Fp.u64Max := by
+  have h0 : ∀ r ∈ (Fw.init ρ ms fp fb t0 rng).rt, r.counterA ≤ Fp.u64Max ∧ r.counterB ≤ Fp.u64Max := by
+    intro r hr
+    obtain ⟨ha, hb⟩ := C08_counters_init ρ ms fp fb t0 rng r hr
+    rw [ha, hb]; exact ⟨Nat.zero_le _, Nat.zero_le _⟩
+  unfold runCalls
+  generalize Fw.init ρ ms fp fb t0 rng = s0 at h0
+  induction h generalizing s0 with
+  | nil => exact h0
+  | cons c cs ih => exact ih _ (C08_counters_u64 ρ c.1 c.2 s0 h0)
+
+/-- **Order on the log, whole call.** For every machine set, oracle, batch, time and state whose
+    counters are u64: the segment `l` the call adds to the ghost log (newest first), read
+    chronologically, passes the monitor's adjacency rule `checkLog` started with empty flags (every
+    `counter mi ao an bo bn` entry holds u64 values and is immediately followed by
+    `trans mi CounterZero _` iff `ao ≠ 0 ∧ an = 0` with A's flag of `mi` unset or `bo ≠ 0 ∧ bn = 0`
+    with B's flag unset), passes `strayCZ` (every CounterZero delivery is immediately preceded by a
+    counter entry of the same machine), and does not start with a CounterZero delivery. -/
+theorem C08_log_adjacent (es : List TEvent) (t : Int) (s : Fw σ)
+    (hb : ∀ r ∈ s.rt, r.counterA ≤ Fp.u64Max ∧ r.counterB ≤ Fp.u64Max)
+    (l : List LogEntry) (hl : (triggerEvents ρ es t s).log = l ++ s.log) :
+    checkLog { a := [], b := [] } l.reverse = none ∧ strayCZ l.reverse = none ∧
+    (∀ mi st rest, l.reverse ≠ .trans mi Gen.EV_CounterZero st :: rest) := by
+  obtain ⟨c, f', hc, hg, _⟩ := CL.call_good ρ es t s hb
+  have hlc : l = c.reverse := List.append_cancel_right (hl.symm.trans hc)
+  subst hlc
+  rw [List.reverse_reverse]
+  refine ⟨?_, ?_, fun mi st rest h => ?_⟩
+  · have := hg.chk [] rfl
+    rw [List.append_nil] at this
+    rw [this]; rfl
+  · have := hg.stray [] rfl
+    rw [List.append_nil] at this
+    rw [this]; rfl
+  · have := hg.head
+    rw [h] at this
+    simp [CL.headCZ] at this
+
+/-- rule 1 in plain terms: in the chronological log segment of a call, a counter entry holds u64
+    values and is immediately followed by the CounterZero delivery to the same machine exactly when
+    counter A or counter B of that machine goes from non-zero to zero at this entry and did not do
+    so at an earlier entry of the same call (at most once per counter per machine per call) -/
+theorem C08_log_exact (es : List TEvent) (t : Int) (s : Fw σ)
+    (hb : ∀ r ∈ s.rt, r.counterA ≤ Fp.u64Max ∧ r.counterB ≤ Fp.u64Max)
+    (l : List LogEntry) (hl : (triggerEvents ρ es t s).log = l ++ s.log)
+    (pre rest : List LogEntry) (mi ao an bo bn : Nat)
+    (hsplit : l.reverse = pre ++ .counter mi ao an bo bn :: rest) :
+    an ≤ Fp.u64Max ∧ bn ≤ Fp.u64Max ∧
+    ((∃ st rest', rest = .trans mi Event.counterZero.toNat st :: rest') ↔
+      (ao ≠ 0 ∧ an = 0 ∧ ¬ CL.ZeroedA mi pre) ∨ (bo ≠ 0 ∧ bn = 0 ∧ ¬ CL.ZeroedB mi pre)) := by
+  have h := (C08_log_adjacent ρ es t s hb l hl).1
+  rw [hsplit] at h
+  exact CL.checkLog_exact pre rest mi ao an bo bn h
+
+/-- rule 2 in plain terms: in the chronological log segment of a call, every CounterZero delivery
+    is immediately preceded by a counter entry of the same machine (in particular it is never the
+    first entry of the call) -/
+theorem C08_log_cz_preceded (es : List TEvent) (t : Int) (s : Fw σ)
+    (hb : ∀ r ∈ s.rt, r.counterA ≤ Fp.u64Max ∧ r.counterB ≤ Fp.u64Max)
+    (l : List LogEntry) (hl : (triggerEvents ρ es t s).log = l ++ s.log)
+    (pre rest : List LogEntry) (mi st : Nat)
+    (hsplit : l.reverse = pre ++ .trans mi Event.counterZero.toNat st :: rest) :
+    ∃ pre' ao an bo bn, pre = pre' ++ [.counter mi ao an bo bn] := by
+  obtain ⟨_, h2, h3⟩ := C08_log_adjacent ρ es t s hb l hl
+  cases pre with
+  | nil => exact absurd hsplit (h3 mi st rest)
+  | cons a p =>
+    rw [hsplit] at h2
+    exact CL.strayCZ_preceded a p rest mi st h2
+
 /-- Non-vacuity: saturation at both ends. -/
 example : applyOp .increment (Fp.u64Max - 1) 5 = Fp.u64Max ∧ applyOp .decrement 3 5 = 0 := by decide
+
+/-- Non-vacuity of the two log rules: a zeroing update without a delivery, a delivery after a
+    non-zeroing update and a delivery not preceded by a counter update are all rejected; a second
+    zeroing of the same counter in the call must NOT be followed by a delivery. -/
+example : (checkLog { a := [], b := [] } [.counter 0 1 0 0 0]).isSome = true ∧
+    (checkLog { a := [], b := [] } [.counter 0 1 1 0 0, .trans 0 Gen.EV_CounterZero 3]).isSome = true ∧
+    checkLog { a := [], b := [] } [.counter 0 1 0 0 0, .trans 0 Gen.EV_CounterZero 3, .counter 0 1 0 0 0] = none ∧
+    (strayCZ [.draw 0, .trans 0 Gen.EV_CounterZero 3]).isSome = true := by decide
 
 end Mb.C08
